@@ -161,6 +161,10 @@ def concretise_mixed(blocks, kind):
     return pos, neg, vals, np.array(pos[::-1], dtype=dts[0]), np.array(neg[::-1], dtype=dts[1])
 
 
+# float thresholds equal to the limits of the integer types (the customary "beyond everything" values for integer scores)
+INT_SENTINELS = [s_ * 2.0 ** k_ for k_ in (7, 8, 15, 16, 31, 32, 63, 64) for s_ in (1.0, -1.0)]
+
+
 def threshold_alphabet(vals):
     """Complete relative alphabet for m distinct values: 4m+3 points (m>=1)."""
     vals = [float(v) for v in vals]
